@@ -113,7 +113,10 @@ func fuzzDispatcher(r *prng.R, s *out.Sink, dense bool) {
 					if !dense && (ti*7+di*3+int(mt))%5 != 0 && !(ti == 0 && mt == 2) {
 						continue
 					}
-					src := []uint16{1, 2, 3, 4, 65535}[r.Intn(5)]
+					// any source but the node itself (id 1): the transport never attributes a message to the node's own identity
+					// (C16), and the receiver treats an acknowledgement from itself as a programming error (explicit panic,
+					// Model/Rbc `receive`: hypothesis `src ≠ self` of C03 never_panics / C10 dispatcher_total)
+					src := []uint16{2, 3, 4, 65535, 0}[r.Intn(5)]
 					m := &tss.IncMessage{Data: data, Source: src, MsgType: mt, Topic: topic}
 					guarded(s, "dispatcher/"+state, fmt.Sprintf("state=%s type=%d topic=%s data=%s src=%d", state, mt, out.Hex(topic), out.Hex(data), src),
 						func() { hm(m) })
